@@ -86,6 +86,14 @@ CHECKS['C08'] = dict(
     note='trusted: TLC, Smarts.tla, Match.tla; ring sizes come from the reported ring basis (C06); repeating one primitive is outside the documented subset',
     technique='TLA+ parser of the documented SMARTS subset + declarative atom/bond match predicates evaluated by TLC on recorded queries',
     design='5/C08')
+CHECKS['C09'] = dict(
+    text='MC_Mask model checks the documented bit layout: for every value of every attribute and pairs of fields the mask test of the compiled loop '
+         'equals the declarative AtomMatches, without overflow or shared bits. Binding: the words emitted by the python encoders are unpacked and '
+         'compared by TLC with the layout model of the projection; _isomorphism.pyx is executed (pyx-lite translation with C integer semantics) '
+         'through the real get_mapping(_cython=True) and its mapping set must equal the reference matcher\'s and the declarative embeddings.',
+    note='trusted: TLC, Mask.tla/Match.tla, harness/pyxlite.py (the C code itself is not executed: no Cython in the sandbox); word clauses inside the layout range',
+    technique='TLA+ bit-layout model checked by TLC; recorded encoder words and translated-.pyx mapping sets validated against it',
+    design='5/C09')
 PENDING = {}
 
 
